@@ -6,6 +6,7 @@ import (
 	"go/token"
 	"go/types"
 	"math"
+	"os"
 	"reflect"
 	"sort"
 	"strings"
@@ -352,6 +353,7 @@ type dynInterp struct {
 	startAt map[*ssa.Function]*ssa.BasicBlock
 	preset  map[ssa.Value]aval
 	trace   []tracedCall
+	cuts    int // number of calls cut at the depth limit so far
 }
 
 type tracedCall struct {
@@ -379,6 +381,9 @@ func (di *dynInterp) issue(at ssa.Instruction, fn *ssa.Function, what string) {
 // run interprets f with the given parameter values and returns the join of its results.
 func (di *dynInterp) run(f *ssa.Function, args []aval, depth int) aval {
 	if f.Blocks == nil || depth > 12 {
+		if f.Blocks != nil {
+			di.cuts++ // an answer computed below this point is not the function's answer: do not memoise it
+		}
 		return top
 	}
 	for i, a := range args {
@@ -413,6 +418,7 @@ func (di *dynInterp) run(f *ssa.Function, args []aval, depth int) aval {
 	if di.open[key] {
 		return top
 	}
+	cuts0 := di.cuts
 	di.open[key] = true
 	defer delete(di.open, key)
 	di.ctxCount++
@@ -581,7 +587,9 @@ func (di *dynInterp) run(f *ssa.Function, args []aval, depth int) aval {
 	if result.k == avBot {
 		result = top
 	}
-	di.memo[key] = result
+	if di.cuts == cuts0 {
+		di.memo[key] = result
+	}
 	return result
 }
 
@@ -873,6 +881,18 @@ func (di *dynInterp) call(f *ssa.Function, c *ssa.Call, get func(ssa.Value) aval
 		return top
 	}
 	if di.p.InSubject(g) {
+		// a boolean predicate over a reflect.Kind applied to a known kind: answered from its truth table (computed
+		// once by the interpreter itself) — exact, and it does not consume call depth in deep contexts
+		if len(args) == 1 && args[0].k == avConst && args[0].c.Kind() == constant.Int && kindPredicateOf != nil && len(g.Params) == 1 && strings.HasSuffix(g.Params[0].Type().String(), "reflect.Kind") {
+			if k, exact := constant.Int64Val(args[0].c); exact && k >= 0 && k <= 26 {
+				if tbl := kindPredicateOf(g); tbl != nil {
+					return cBool(tbl[int(k)])
+				}
+			}
+		}
+		if os.Getenv("VCHK_DEBUG_CALLEE") == g.Name() {
+			fmt.Fprintf(os.Stderr, "DEBUG call %s from %s at %s args=%v arith=%v depth=%d\n", g.Name(), f.Name(), di.p.Pos(c.Pos()), args, di.arith, depth)
+		}
 		return di.run(g, args, depth+1)
 	}
 	if core.QualName(g) == "spec.StringOrArray.Contains" && len(args) == 2 && args[0].k == avList && args[1].k == avConst && args[1].c.Kind() == constant.String {
